@@ -22,6 +22,14 @@ for d in sorted(glob.glob(os.path.join(VERIF, "seeded", pid + "-*"))):
         pass
 
 HINTS = {
+    "r6": """This round: both changes must be plausible PERFORMANCE OPTIMISATIONS - the most common source of subtle breakage in practice. Pick two DIFFERENT optimisation styles (and prefer sites that none of the earlier changes listed below touched):
+  (s) caching / memoisation of a derived value (with an invalidation that misses one path), reuse of a buffer or object across calls or across scenes / tracks / threads;
+  (t) skipping work that is "obviously" unnecessary (early exit, pre-filter, pruning, fast path for a common case) where the justification fails for an unusual but valid input;
+  (u) batching / coalescing / deferring updates (apply at the end of the call, once per batch, lazily on next read) so that something reads a stale value in between;
+  (v) parallelising or pipelining a step (splitting work across threads, overlapping two phases) with a missing ordering or a shared accumulator;
+  (w) cheaper arithmetic (lower precision, integer keys, approximations, squared instead of rooted quantities, avoiding a division) that changes a decision in a narrow regime;
+  (x) smaller data (truncating histories, dropping fields from clones or messages, capacity limits, bounded queues) that loses something needed later.
+The change must still need something specific to manifest (unusual input, long or oddly shaped history, particular interleaving, rare option) - avoid changes that any ordinary use exposes at once, and do not repeat the earlier changes' sites and triggers.""",
     "r5": """Aim for changes chosen by MECHANISM (pick two DIFFERENT mechanisms, and prefer sites that none of the earlier changes listed below touched):
   (m) resource / shutdown / cleanup: Drop order, thread join, channel closing, a tracker or store dropped while results are outstanding, an iterator or result object dropped half-consumed;
   (n) arithmetic: usize subtraction or `len() - 1` on a path that can be empty, casts (`as u64`, `as i64`, `as usize`, f64 -> f32) that truncate or wrap for unusual values, saturating vs wrapping vs checked arithmetic, integer division rounding, accumulated float error over long runs;
